@@ -672,6 +672,75 @@ def r17_15(ctx):
         ctx.bad("R17.15", fi.module, fi.qual, "new_mbox.sequences = sequences; new_mbox.set_sequences_in_folder(sequences)", "the flag table built while moving the inbox's messages is not what the new mailbox keeps / writes to .mh_sequences", fi.node.lineno)
 
 
+# who may make a directory below the mail directory (a mailbox folder): every such directory has a row in `mailboxes` -
+# LIST reads the table, not the disk - and the row is written by get_mailbox() / Mailbox.new() on the way
+DIR_MAKERS = {
+    "mbox.Mailbox.create": ({"MH"}, "makes each element of the path (`MH(maildir / name)`) and then activates each of them through get_mailbox(), which gives it its row"),
+    "mbox._helper_rename_folder": ({"symlink"}, "a symlink new -> old for the duration of the rename (removed again), no directory of its own"),
+    "user_server.IMAPUserServer.__init__": ({"MH"}, "the mail directory itself"),
+    "mh.MH.get_folder": ({"MH"}, "opens, create=False"),
+    "mh.MH.add_folder": ({"MH"}, "MH's own folder creation, used by the tests' fixtures only"),
+    "mbox.Mailbox.copy": ({"TemporaryDirectory"}, "a TemporaryDirectory outside the mail directory"),
+    "utils.setup_logging": ({"mkdir", "makedirs"}, "the log directory"),
+    "utils.setup_asyncio_logging": ({"mkdir", "makedirs"}, "the log directory"),
+}
+_DIR_CALLS = ("makedirs", "mkdir", "mkdtemp", "TemporaryDirectory", "add_folder", "symlink")
+
+
+def r17_16(ctx):
+    """LIST and LSUB answer from the `mailboxes` table; SELECT, CREATE and RENAME look at the directories.  The two agree
+    only while every directory below the mail directory was made by the one path that also writes its row (Mailbox.create,
+    element by element).  A directory made anywhere else - `makedirs(new_dir.parent)` in the rename helper to be helpful about
+    missing superiors - exists, is selectable, refuses a later CREATE as `already exists`, and is listed by nobody."""
+    p = ctx.p
+    n = 0
+    for fi in p.functions.values():
+        if fi.module in ("asimapd", "asimapd_user", "set_password", "trace", "db", "auth", "hashers", "throttle"):
+            continue
+        for c in calls_in(fi.node):
+            nm = call_name(c)
+            is_mh_ctor = isinstance(c.func, ast.Name) and c.func.id == "MH"
+            if nm not in _DIR_CALLS and not is_mh_ctor:
+                continue
+            if nm == "mkdir" and fi.module == "utils":
+                pass
+            n += 1
+            key = fi.key if fi.key in DIR_MAKERS else (f"{fi.module}.{fi.qual.split('.')[0]}" if f"{fi.module}.{fi.qual.split('.')[0]}" in DIR_MAKERS else None)
+            what = "MH" if is_mh_ctor else nm
+            if key and what in DIR_MAKERS[key][0]:
+                ctx.ok("R17.16", where(fi), f"{norm(c, 40)}: {DIR_MAKERS[key][1]}", nontrivial=False)
+            else:
+                ctx.bad("R17.16", fi.module, fi.qual, norm(c, 80), f"{fi.qual} makes a directory (`{norm(c, 50)}`) - it is not one of the sites that also give the directory its row in `mailboxes`: a mailbox folder made here exists on disk (selectable, `CREATE` of its name is refused) but is never listed", c.lineno)
+    ctx.floor("R17.16", n, 3, "directory-making calls")
+
+
+def r17_17(ctx):
+    """Mailbox.create() makes every missing element of the path and then walks the whole chain, leaf to root, activating
+    each element (get_mailbox: that is what gives a new intermediate its row in `mailboxes`) and refreshing its
+    \\HasChildren.  The walk visits *every* element - no break, no early return, no filter on the elements: an intermediate
+    that is skipped exists on disk, is not listed, and turns up as a new mailbox (fresh UIDVALIDITY) at the next start-up
+    scan."""
+    p = ctx.p
+    fi = p.func("mbox.Mailbox.create")
+    ctx.analysed(fi)
+    loops = [n for n in body_walk(fi.node) if isinstance(n, (ast.For, ast.AsyncFor)) and any(call_name(c) == "get_mailbox" for c in calls_in(n))]
+    ctx.floor("R17.17", len(loops), 1, "chain walks in Mailbox.create()")
+    for lp in loops:
+        early = [x for st in lp.body for x in walk_no_nested(st) if isinstance(x, (ast.Break, ast.Return))]
+        # a `continue` in front of the activation skips an element as well
+        skips = []
+        for st in lp.body:
+            if any(call_name(c) == "get_mailbox" for c in calls_in(st)):
+                break
+            skips += [x for x in walk_no_nested(st) if isinstance(x, ast.Continue)]
+        filtered = isinstance(lp.iter, (ast.ListComp, ast.GeneratorExp)) and any(g_.ifs for g_ in lp.iter.generators) or (isinstance(lp.iter, ast.Subscript))
+        if early or skips or filtered:
+            x = (early or skips or [lp])[0]
+            ctx.bad("R17.17", fi.module, fi.qual, norm(x, 60) if not isinstance(x, (ast.For, ast.AsyncFor)) else norm(lp.iter, 60), "the walk over the created chain can stop before (or skip) an element: that intermediate directory gets no row in `mailboxes` - it is not listed while the server runs and appears as a new mailbox after the next restart", getattr(x, "lineno", lp.lineno))
+        else:
+            ctx.ok("R17.17", where(fi), "every element of the created path is activated (and so has its row)")
+
+
 def run(ctx):
     ctx.do(r17_8)
     ctx.do(r17_9)
@@ -688,6 +757,8 @@ def run(ctx):
     ctx.do(r17_13)
     ctx.do(r17_14)
     ctx.do(r17_15)
+    ctx.do(r17_16)
+    ctx.do(r17_17)
     from . import c08 as _c08
     ctx.do(_c08.r8_3)  # the inbox and what lies below it are recognised in every spelling
     from . import c12 as _c12
